@@ -213,6 +213,46 @@ def compute_let_else_continue(src: Source, lo, hi):
     return edits
 
 
+def compute_range_any(src: Source, lo, hi):
+    """Mechanical normalisation (Verus has no specification for iterator adapters):
+           RECV.range(A..=B).any(CLOSURE)      (RECV = a path of identifiers joined by `.`)
+       ==> verif_range_any(&RECV, A, B, CLOSURE)
+    `verif_range_any` is the shim `shims/vecdeque_range_any.vrs`, whose external body IS `d.range(start..=end).any(f)` and
+    whose assumed contract is std's documented behaviour. Only token-level: receiver, bounds and closure are copied
+    verbatim. Returns edits like compute_drops."""
+    ts = [t for t in src.toks if lo <= t.pos < hi and t.kind not in R.TRIVIA]
+    edits = []
+    for i, t in enumerate(ts):
+        if not (t.kind == R.ID and t.text == "range" and i >= 2 and ts[i - 1].text == "." and
+                i + 1 < len(ts) and ts[i + 1].text == "("):
+            continue
+        close = R.match_close(ts, i + 1)
+        if not (close + 3 < len(ts) and ts[close + 1].text == "." and ts[close + 2].text == "any" and ts[close + 3].text == "("):
+            continue
+        # the one `..=` at depth 0 between the parentheses
+        depth, dots = 0, []
+        for j in range(i + 2, close):
+            u = ts[j]
+            if u.kind == R.P and u.text in ("(", "[", "{"): depth += 1
+            elif u.kind == R.P and u.text in (")", "]", "}"): depth -= 1
+            elif depth == 0 and u.kind == R.P and u.text == "..=": dots.append(j)
+        if len(dots) != 1 or dots[0] == i + 2 or dots[0] == close - 1:
+            continue
+        # receiver: ID (. ID)* ending right before `. range`
+        k = i - 2
+        if ts[k].kind != R.ID:
+            continue
+        while k >= 2 and ts[k - 1].text == "." and ts[k - 2].kind == R.ID:
+            k -= 2
+        line = src.line(ts[k].pos)
+        note = f"`RECV.range(A..=B).any(F)` normalised to the shim call `verif_range_any(&RECV, A, B, F)` (line {line})"
+        edits.append((ts[k].pos, ts[k].pos, "verif_range_any(&", note))
+        edits.append((ts[i - 1].pos, ts[i + 1].end, ", ", note))
+        edits.append((ts[dots[0]].pos, ts[dots[0]].end, ", ", note))
+        edits.append((ts[close].pos, ts[close + 3].end, ", ", note))
+    return edits
+
+
 def apply_edits(text, base, edits):
     out, pos = [], base
     for s, e, rep, _ in sorted(edits):
@@ -459,6 +499,8 @@ def extract_items(unit, side: Sidecar):
             drops = compute_drops(src, lo, hi)
             if "let-else-continue" in unit.get("rewrites", []):
                 drops += compute_let_else_continue(src, lo, hi)
+            if "range-any" in unit.get("rewrites", []):
+                drops += compute_range_any(src, lo, hi)
             drops = [d for d in drops if not any(r[0] <= d[0] < r[1] for r in removed_ranges)]
             edits = drops + removed_ranges + [(p, p, t, "woven") for p, t in ins]
             # stable order: at equal offsets, keep insertion order
@@ -476,7 +518,9 @@ def extract_items(unit, side: Sidecar):
             out.append((I_OPEN % f"{srcspec['file']}: {spec}") + "\n" + gen + "\n" + I_CLOSE)
             manifest.append({"file": srcspec["file"], "item": spec, "line": src.line(it.head_start)})
             for d in drops + removed_ranges:
-                drops_all.append(f"{srcspec['file']}:{src.line(d[0])}: {d[3]}")
+                entry = f"{srcspec['file']}:{src.line(d[0])}: {d[3]}"
+                if not (d[3].startswith("`RECV.range") and any(x.endswith(d[3]) for x in drops_all)):
+                    drops_all.append(entry)
     for d in unit.get("derived", []):
         if d["kind"] != "if-condition":
             raise Undecided(f"unknown derived kind {d['kind']}")
